@@ -14,12 +14,14 @@ import (
 
 type style struct {
 	r        *rng.R
-	quote    int  // 0 per-identifier random, 1 "dq", 2 `bt`, 3 [br], 4 bare when possible else dq
-	kw       int  // 0 UPPER, 1 lower, 2 Mixed
-	nl       bool // newline + indent between definitions
-	tight    bool // CHECK(, REFERENCES t(
-	comments int  // 0 none, 1 block comments, 2 line comments
-	wide     bool // double spaces / tabs between tokens
+	seed     uint64 // per-identifier choices are a function of (seed, name): independent of rendering order
+	rk, rc   *rng.R // separate streams for spacing and comments
+	quote    int    // 0 per-identifier random, 1 "dq", 2 `bt`, 3 [br], 4 bare when possible else dq
+	kw       int    // 0 UPPER, 1 lower, 2 Mixed
+	nl       bool   // newline + indent between definitions
+	tight    bool   // CHECK(, REFERENCES t(
+	comments int    // 0 none, 1 block comments, 2 line comments
+	wide     bool   // double spaces / tabs between tokens
 	s        *hSchema
 	// repairs (see repair.go)
 	noBracket  bool // [x] -> "x"
@@ -28,6 +30,8 @@ type style struct {
 
 func newStyle(r *rng.R, s *hSchema) *style {
 	st := &style{r: r, s: s, quote: r.Intn(5), kw: 0, nl: r.Chance(1, 3), tight: r.Chance(1, 3), wide: r.Chance(1, 6)}
+	st.seed = r.U64()
+	st.rk, st.rc = rng.New(st.seed^1), rng.New(st.seed^2)
 	if r.Chance(1, 3) {
 		st.kw = 1 + r.Intn(2)
 	}
@@ -56,7 +60,7 @@ func newStyle(r *rng.R, s *hSchema) *style {
 func (st *style) k(words string) string {
 	sp := " "
 	if st.wide {
-		sp = rng.Pick(st.r, []string{"  ", "\t", " \t "})
+		sp = rng.Pick(st.rk, []string{"  ", "\t", " \t "})
 	}
 	ws := strings.Fields(words)
 	for i, w := range ws {
@@ -76,7 +80,11 @@ func (st *style) k(words string) string {
 func (st *style) id(name string) string {
 	q := st.quote
 	if q == 0 {
-		q = 1 + st.r.Intn(4)
+		h := st.seed
+		for _, c := range []byte(name) {
+			h = (h ^ uint64(c)) * 0x100000001B3
+		}
+		q = 1 + int((h>>20)%4)
 	}
 	if q == 4 {
 		if isPlainIdent(name) {
@@ -208,9 +216,9 @@ func (st *style) column(c *hCol) string {
 func (st *style) comment() string {
 	switch st.comments {
 	case 1:
-		return rng.Pick(st.r, []string{" /* note */", " /* a, b */", " /* (x) */", ""})
+		return rng.Pick(st.rc, []string{" /* note */", " /* a, b */", " /* (x) */", ""})
 	case 2:
-		return rng.Pick(st.r, []string{" -- note\n", " -- a, b\n", ""})
+		return rng.Pick(st.rc, []string{" -- note\n", " -- a, b\n", ""})
 	}
 	return ""
 }
